@@ -18,6 +18,7 @@ from __future__ import annotations
 import copy
 import json
 import re
+import time
 from typing import Any
 
 from harness import apirig, common
@@ -623,7 +624,11 @@ def shrink_selector(case: dict, line: int) -> tuple[dict, dict]:
             action = a
             break
     else:
-        return case, {'unshrunk': True, 'line': case['lines'][line]['text']}
+        # not reproducible as a single command on a fresh daemon (depends on earlier commands): the
+        # whole case is the replay; the canonical form keeps the class of the command only
+        if action_class == 'watchdog':
+            return case, {'action': 'watchdog'}
+        return case, {'selector': selector_shape(specs, sel), 'action': 'route', 'needs-history': True}
     progress = True
     while progress:
         progress = False
@@ -865,15 +870,16 @@ def run(ctx: Ctx) -> None:
     seen: set = set()
     cases: list[tuple[dict, str]] = [(c, 'corpus') for c in load_corpus()]
     cases.append(({**oversize_probe(), 'model': ctx.tier == 'thorough'}, 'oversize-probe'))
-    nrandom = 1400 if ctx.tier == 'quick' else 24000
+    nrandom = 1400 if ctx.tier == 'quick' else 20000
     nraw = 350 if ctx.tier == 'quick' else 4000
     for i in range(nrandom):
         cases.append((gen_case(rng, ctx.tier), 'random'))
         if i % max(1, nrandom // nraw) == 0:
             cases.append((gen_raw(rng), 'raw'))
     pending: list = []
+    stop = time.time() + (75 if ctx.tier == 'quick' else 780)  # leave room for build, audit and leanchecker
     for case, origin in cases:
-        if ctx.time_left() < 5:
+        if ctx.time_left() < 5 or time.time() > stop:
             ctx.notes.append(f'budget reached after {ctx.evaluations} cases')
             break
         eval_case(ctx, case, quirks, seen, origin, pending)
